@@ -49,24 +49,30 @@ structure Ext (m lvl : Nat) (s s' : PS) : Prop where
   shr : ∀ a, SharedA s.heap a → SharedA s'.heap a
   own : 1 ≤ lvl → ∀ a, Own s.heap m a → Own s'.heap m a
   pre : 2 ≤ lvl → AllocOnly s.heap s'.heap
+  /-- the table of stored contents only grows: a name keeps its contents for ever -/
+  stp : ∃ ext, s'.store = s.store ++ ext
 
 theorem Ext.refl (m lvl : Nat) (s : PS) : Ext m lvl s s :=
-  ⟨fun v _ _ hc => ⟨agree_refl _ v, hc⟩, fun _ h => h, fun _ h => h, fun _ _ h => h, fun _ => AllocOnly.refl _⟩
+  ⟨fun v _ _ hc => ⟨agree_refl _ v, hc⟩, fun _ h => h, fun _ h => h, fun _ _ h => h, fun _ => AllocOnly.refl _, ⟨[], by simp⟩⟩
 
 theorem Ext.trans {m lvl : Nat} {s1 s2 s3 : PS} (a : Ext m lvl s1 s2) (b : Ext m lvl s2 s3) : Ext m lvl s1 s3 := by
   refine ⟨?_, fun l h => b.vis l (a.vis l h), fun x h => b.shr x (a.shr x h),
-    fun hl x h => b.own hl x (a.own hl x h), fun hl => (a.pre hl).trans (b.pre hl)⟩
-  intro v h1 h2 hc
-  obtain ⟨ag1, c1⟩ := a.others v h1 h2 hc
-  obtain ⟨ag2, c2⟩ := b.others v h1 h2 c1
-  exact ⟨agree_trans ag1 ag2, c2⟩
+    fun hl x h => b.own hl x (a.own hl x h), fun hl => (a.pre hl).trans (b.pre hl), ?_⟩
+  · intro v h1 h2 hc
+    obtain ⟨ag1, c1⟩ := a.others v h1 h2 hc
+    obtain ⟨ag2, c2⟩ := b.others v h1 h2 c1
+    exact ⟨agree_trans ag1 ag2, c2⟩
+  · obtain ⟨x1, h1⟩ := a.stp
+    obtain ⟨x2, h2⟩ := b.stp
+    exact ⟨x1 ++ x2, by rw [h2, h1, List.append_assoc]⟩
 
 theorem Ext.mono {m lvl lvl' : Nat} {s s' : PS} (hl : lvl' ≤ lvl) (a : Ext m lvl s s') : Ext m lvl' s s' :=
-  ⟨a.others, a.vis, a.shr, fun h => a.own (by omega), fun h => a.pre (by omega)⟩
+  ⟨a.others, a.vis, a.shr, fun h => a.own (by omega), fun h => a.pre (by omega), a.stp⟩
 
 /-- only fields other than the heap changed -/
-theorem Ext.of_heap_eq {m lvl : Nat} {s s' : PS} (h : s'.heap = s.heap) : Ext m lvl s s' := by
-  refine ⟨?_, ?_, ?_, ?_, ?_⟩
+theorem Ext.of_heap_eq {m lvl : Nat} {s s' : PS} (h : s'.heap = s.heap) (hst : ∃ ext, s'.store = s.store ++ ext) :
+    Ext m lvl s s' := by
+  refine ⟨?_, ?_, ?_, ?_, ?_, hst⟩
   · intro v _ _ hc; rw [h]; exact ⟨agree_refl _ _, hc⟩
   · intro l hl; rw [h]; exact hl
   · intro a ha; rw [h]; exact ha
